@@ -12,7 +12,7 @@ SPEC = {
         "runs": [{"args": ["-only", "reattach"], "corpus": "reattach"}],
     }],
     "strip_obs": r" \| ps .*$",
-    "skip_model_prefix": ["bridge", "reattachfree"],  # "bridge" also covers "bridgestall"
+    "skip_model_prefix": ["bridge", "reattachfree", "closerace"],  # "bridge" also covers "bridgestall"
     "rule": ("copy cases: the real Bridge.CopyWithControl between scripted endpoints (reads with data/timeouts/errors/empty "
              "results, short and failing writes, sizes around the 32 KiB buffer and the 1 MiB batch threshold, bandwidth "
              "limits below and above buffer/2, cancellation) compared byte-exactly with the model; bridge cases: the real "
